@@ -208,7 +208,21 @@ def sem(o, ctx, rho=None):
     if hit is not None:
         return hit[1]
     h = _dispatch(type(o))
-    v = h(o, ctx, rho)
+    try:
+        v = h(o, ctx, rho)
+    except Undefined as e:
+        # An unrestricted quantity in a two-sided environment still has a value if it is single-valued
+        if ctx.side is None and ctx.env.two_sided and str(e).startswith("unrestricted"):
+            try:
+                vp = sem(o, _side_ctx(ctx, "+"), rho)
+                vm = sem(o, _side_ctx(ctx, "-"), rho)
+            except Undefined as e2:
+                raise Undefined(f"no single-valued meaning ({e}; {e2})")
+            if not values_close(vp, vm, mpf("1e-20"), const_only=True):
+                raise Undefined(f"two-sided values differ ({e})")
+            v = vp
+        else:
+            raise
     ctx.memo[key] = (o, v)
     return v
 
@@ -785,19 +799,42 @@ def _need_jets(ctx):
         raise ModelGap("derivative node evaluated with jet order 0 (harness must set_order)")
 
 
+def _inner_side(o):
+    """Side of a Restricted found below a chain of terminal modifiers (Grad, ReferenceGrad, ReferenceValue)."""
+    while True:
+        n = type(o).__name__
+        if n == "PositiveRestricted":
+            return "+"
+        if n == "NegativeRestricted":
+            return "-"
+        if n in ("Grad", "ReferenceGrad", "ReferenceValue"):
+            o = o.ufl_operands[0]
+            continue
+        return None
+
+
+def _deriv_cell(o, ctx, what):
+    """The cell whose coordinates the derivative node o differentiates in."""
+    if ctx.env.two_sided and ctx.side is None:
+        s = _inner_side(o.ufl_operands[0])
+        if s is None:
+            raise Undefined(f"unrestricted {what} in two-sided environment")
+        return ctx.env.cells[s]
+    return ctx.cell()
+
+
 @handler("ReferenceGrad")
 def _reference_grad(o, ctx, rho):
     _need_jets(ctx)
-    _need_side(ctx, "ReferenceGrad")
-    return ref_grad(sem(o.ufl_operands[0], ctx, rho), ctx.cell().tdim)
+    cell = _deriv_cell(o, ctx, "ReferenceGrad")
+    return ref_grad(sem(o.ufl_operands[0], ctx, rho), cell.tdim)
 
 
 @handler("Grad")
 def _grad(o, ctx, rho):
     _need_jets(ctx)
-    if ctx.env.two_sided and ctx.side is None:
-        raise Undefined("unrestricted Grad in two-sided environment")
-    return phys_grad(sem(o.ufl_operands[0], ctx, rho), ctx.cell())
+    cell = _deriv_cell(o, ctx, "Grad")
+    return phys_grad(sem(o.ufl_operands[0], ctx, rho), cell)
 
 
 @handler("NablaGrad")
